@@ -2,9 +2,9 @@
 From Coq Require Import NArith List Bool.
 From Verif Require Import Sx Str Tok.
 From Verif.Gen Require Import Entities.
-From Verif.Model Require Import CharRef.
+From Verif.Model Require Import CharRef C14.
 From Verif.Spec Require Import CharRef.
-From Verif.Proofs Require Import C14.
+From Verif.Proofs Require Import C14 C14num.
 Import ListNotations.
 Local Open Scope N_scope.
 
@@ -52,12 +52,21 @@ Proof. exact named_vs_spec_entities. Qed.
 
 (* conversely (named part): the reference the serializer writes for an unencodable character,
    "&" + _encode_entity_map[c] + ";", decodes to exactly that character whatever text follows.
-   PARTIAL: the numeric form "&#xHEX;" is covered by c14_numeric_ref_spec only value-wise, and C1 controls
-   cannot round-trip at all (known finding C14-unencodable-c1-control-roundtrip). *)
+   C1 controls cannot round-trip at all (known finding C14-unencodable-c1-control-roundtrip). *)
 Theorem c14_encode_decode_named_partial : forall e rest,
   In e encode_entity_map ->
   consume_entity None false (with_semi (snd e) ++ rest) = ([fst e], [], rest).
 Proof. exact encode_decode_named. Qed.
+
+(* ... and the whole replacement htmlentityreplace_errors writes for a code point (Model/C14.v: encode_ref -- the named
+   reference where _encode_entity_map has the code point, else "&#x" + hex(cp)[2:] + ";") decodes to exactly that
+   code point, whatever text follows: for EVERY code point outside the replacement table (U+0000, U+000D, the C1
+   controls) and the surrogates *)
+Theorem c14_encode_ref_decodes : forall c rest, 0 < c -> c < 1114112 -> lookup_N replacementCharacters c = None ->
+  (55296 <=? c) && (c <=? 57343) = false ->
+  fst (fst (consume_entity None false (tl (encode_ref c) ++ rest))) = [c] /\
+  snd (consume_entity None false (tl (encode_ref c) ++ rest)) = rest.
+Proof. exact encode_ref_decodes. Qed.
 
 (* non-vacuity: "&notit;" in text -> "¬i" with "t;" left to read; in an attribute value -> "&noti" *)
 Example c14_example :
